@@ -5,14 +5,16 @@ Executable precedence-climbing (Pratt) parser for the operator fragment of the s
 Written from the grammar (the ladder levels and the operand slots of each construct), NOT from the printer `pr`:
 * a *prefix* construct (`+ - ~`, `not`, `await`, `lambda:`) may start a phrase of a slot whose minimal ladder level is at
   most the construct's own level; its operand is parsed in the construct's operand slot;
-* an *infix* construct (left-assoc binary operators, `**`, comparison chains, n-ary `and` / `or`, `… if … else …`) may
+* an *infix* construct (left-assoc binary operators, `**`, comparison chains, n-ary `and` / `or`, `… if … else …`,
+  and the postfix trailers `.name`, `[…]`, `(…)`) may
   continue a phrase when the slot accepts the construct's level AND the construct's left slot accepts what has been
   parsed so far (`ll`, the ladder level of the left operand; a parenthesised group or an atom is at level `ATOM`).
 
 Total by fuel (every function recurses structurally on its first argument).  No imports besides the grammar.
 
 Covered `Kind`s: `bin op` (op ≤ 12), `un op` (op < 3), `not_`, `boolop _`, `cmp ops` (ops ∈ 80..89), `ifexp`, `lambda`,
-`await_`; leaves `name` (class `lad ATOM`) and `int` (class `intlit`); parenthesised groups.
+`await_`, `attr _`, `subscr` (slice: an expression), `call n []` (positional arguments that are expressions);
+leaves `name` (class `lad ATOM`) and `int` (class `intlit`); parenthesised groups.
 -/
 namespace Pfst.Parse
 open Pfst.Grammar
@@ -26,7 +28,10 @@ def infixLev : Tok → Option (Nat × Nat)
     else if op = 70 then some (AND, OR)                  -- disjunction: conjunction ('or' conjunction)+
     else if op = 71 then some (NOT, AND)                 -- conjunction: inversion ('and' inversion)+
     else if op = tIf then some (OR, TEST)                -- expression: disjunction 'if' disjunction 'else' expression
+    else if op = tDot then some (ATOM, ATOM)             -- primary: primary '.' NAME
+    else if op = tLb then some (ATOM, ATOM)              -- primary: primary '[' slices ']'
     else none
+  | .lp => some (ATOM, ATOM)                             -- primary: primary '(' arguments ')'
   | _ => none
 
 /-- `rest` cannot continue a phrase whose right edge sits in an operand slot of level `fl`:
@@ -36,6 +41,9 @@ def follow (fl : Nat) : List Tok → Bool
     | some (_, lr) => decide (lr < fl)
     | none => true
   | [] => true
+
+/-- pseudo-level of phrases that every slot accepts (parenthesised groups; integer literals unless `noInt`) -/
+def GRP := 15
 
 /- Results are `(tree, ladder level of the phrase, phrase is a bare integer literal, remaining tokens)`. -/
 mutual
@@ -52,10 +60,10 @@ def pPre : Nat → Nat → List Tok → Option (E × Nat × Bool × List Tok)
   | f + 1, m, toks =>
     match toks with
     | .name n :: rest => some (.leaf (.name n) (.lad ATOM), ATOM, false, rest)
-    | .int n :: rest => some (.leaf (.int n) .intlit, ATOM, true, rest)
+    | .int n :: rest => some (.leaf (.int n) .intlit, GRP, true, rest)
     | .lp :: rest =>                                       -- group: '(' expression ')'
       match pE f TEST rest with
-      | some (e, _, _, .rp :: rest') => some (e, ATOM, false, rest')
+      | some (e, _, _, .rp :: rest') => some (e, GRP, false, rest')
       | _ => none
     | .sym op :: rest =>
       if 30 ≤ op ∧ op < 33 then                            -- factor: ('+'|'-'|'~') factor
@@ -136,6 +144,31 @@ def pLoop : Nat → Nat → E → Nat → Bool → List Tok → Option (E × Nat
             else none
           | _ => none
         else some (l, ll, bi, toks)
+      else if op = tDot then                               -- attribute (not of a bare integer literal: `1.x` does not lex)
+        if m ≤ ATOM ∧ ATOM ≤ ll ∧ bi = false then
+          match rest with
+          | .name n :: rest' => pLoop f m (.node (.attr n) [l]) ATOM false rest'
+          | _ => none
+        else some (l, ll, bi, toks)
+      else if op = tLb then                                -- subscript with an expression as slice
+        if m ≤ ATOM ∧ ATOM ≤ ll then
+          match pE f TEST rest with
+          | some (x, _, _, .sym c :: rest') =>
+            if c = tRb then pLoop f m (.node .subscr [l, x]) ATOM false rest' else none
+          | _ => none
+        else some (l, ll, bi, toks)
+      else some (l, ll, bi, toks)
+    | .lp :: rest =>                                       -- call with positional arguments
+      if m ≤ ATOM ∧ ATOM ≤ ll then
+        match rest with
+        | .rp :: rest' => pLoop f m (.node (.call 0 []) [l]) ATOM false rest'
+        | _ =>
+          match pE f TEST rest with
+          | some (x, _, _, rest1) =>
+            match pBool f tComma TEST rest1 with
+            | some (xs, .rp :: rest2) => pLoop f m (.node (.call (xs.length + 1) []) (l :: x :: xs)) ATOM false rest2
+            | _ => none
+          | none => none
       else some (l, ll, bi, toks)
     | _ => some (l, ll, bi, toks)
 /-- tail of a comparison chain: `(op bitwise_or)*` -/
@@ -192,6 +225,8 @@ def kindOk : Kind → Bool
   | .un op => decide (op < 3)
   | .not_ | .boolop _ | .ifexp | .lambda | .await_ => true
   | .cmp ops => ops.all (fun op => decide (80 ≤ op ∧ op < 90))
+  | .attr _ | .subscr => true
+  | .call _ kws => kws.isEmpty
   | _ => false
 
 mutual
